@@ -31,7 +31,7 @@ Firsts == { Ty(<<"ref">>, "generic", 1, "D"), Ty(<<"ref">>, "generic", 0, "D"), 
 F(name, vis, as, first, ncfg) ==
   [name |-> name, vis |-> vis, async |-> as, first |-> first, nparams |-> 2, ngen |-> IF first.base = "generic" THEN 1 ELSE 0, ncfg |-> ncfg]
 NoTr == [name |-> "", vis |-> "", ngen |-> 0, gargs |-> "", supers |-> << >>, nother |-> 0, methods |-> << >>]
-NoIm == [trait |-> "", selfty |-> ""]
+NoIm == [trait |-> "", selfty |-> "", targs |-> FALSE]
 Base(target, variant, lead, opts, sub) ==
   [target |-> target, variant |-> variant, attr |-> [lead |-> lead, opts |-> opts, trail |-> ""], tvis |-> "", tvisp |-> [head |-> "", rest |-> ""], tname |-> "", implkind |-> "static",
    sub |-> sub, fns |-> << >>, items |-> << >>, modname |-> "", modvis |-> "", delegname |-> "", tr |-> NoTr, im |-> NoIm]
@@ -58,20 +58,22 @@ TraitInputs == { [Base("trait", v, a.lead, a.opts \o os, sub) EXCEPT !.tname = a
                               methods |-> [i \in DOMAIN ms |-> [ms[i] EXCEPT !.name = "m" \o ToString(i)]]]]
                  : tv \in {"pub", ""}, v \in {"entrait", "entrait_unimock"}, a \in TrAttrs, os \in { << >>, << Bare("mockall") >>, << Bare("?Send") >>, << Bare("unimock"), Eq("mock_api", "Mk") >> },
                    sub \in Subs, ms \in TrMethods }
-ImplInputs == { [Base("impl", v, ld, << >>, sub) EXCEPT !.implkind = IF ld = "" THEN "static" ELSE "dyn", !.fns = Rename(fs), !.im = [trait |-> "TImpl", selfty |-> "X"]]
-                : v \in {"entrait", "entrait_unimock"}, ld \in {"", "ref"}, sub \in Subs,
+ImplInputs == { [Base("impl", v, ld, << >>, sub) EXCEPT !.implkind = IF ld = "" THEN "static" ELSE "dyn", !.fns = Rename(fs), !.im = [trait |-> "TImpl", selfty |-> "X", targs |-> ta]]
+                : ta \in BOOLEAN, v \in {"entrait", "entrait_unimock"}, ld \in {"", "ref"}, sub \in Subs,
                   fs \in { x \in ModFns : Len(x) >= 1 /\ \A i \in DOMAIN x : x[i].first.wrap # << >> } }
 Inputs == FnInputs \cup ModInputs \cup TraitInputs \cup ImplInputs
 
 VARIABLES in, pc, p, gen, lines
 vars == <<in, pc, p, gen, lines>>
 None == [err |-> "", items |-> << >>]
-Init == in \in Inputs /\ pc = "parse" /\ p = [err |-> "", opts |-> NoOpts, impltrait |-> ""] /\ gen = None /\ lines = << >>
+Init == in \in Inputs /\ pc = "item" /\ p = [err |-> "", opts |-> NoOpts, impltrait |-> ""] /\ gen = None /\ lines = << >>
+ParseItem == /\ pc = "item" /\ p' = [p EXCEPT !.err = ItemErr(in)]
+             /\ pc' = (IF p'.err # "" THEN "done" ELSE "parse") /\ UNCHANGED <<in, gen, lines>>
 ParseAttr == /\ pc = "parse" /\ p' = FrontEndV(in.target, in.attr, in.variant)
              /\ pc' = (IF p'.err # "" THEN "done" ELSE "generate") /\ UNCHANGED <<in, gen, lines>>
 GenerateItems == /\ pc = "generate" /\ gen' = Generate(in, p) /\ pc' = (IF gen'.err # "" THEN "done" ELSE "render") /\ UNCHANGED <<in, p, lines>>
 RenderLines == /\ pc = "render" /\ lines' = Render(gen.items) /\ pc' = "done" /\ UNCHANGED <<in, p, gen>>
-Spec == Init /\ [][ParseAttr \/ GenerateItems \/ RenderLines]_vars
+Spec == Init /\ [][ParseItem \/ ParseAttr \/ GenerateItems \/ RenderLines]_vars
 
 Ok == pc = "done" /\ p.err = "" /\ gen.err = ""
 StepwiseIsExpand == pc = "done" => LET x == Expand(in) IN
